@@ -967,6 +967,15 @@ script script1 {
 }
 ''' % (p2, p2))
 
+# (f) a signature naming an enum that no mapfile declares, and calls that pass enum-const identifiers to it
+#     (the mapfile arrives by -m here; C04 also runs every item with its mapfiles named by #pragma instead)
+for fmt, magic in [('ANM_12', '!anmmap'), ('STD_12', '!stdmap'), ('ECL_08', '!eclmap'), ('MSG_12', '!msgmap')]:
+    add('feature/%s-undeclared-enum-used' % fmt.lower().replace('_', ''), fmt, mapfiles=[magic + '\n!ins_signatures\n999 S(enum="Nope")\n998 S(enum="Nope")S\n'], main_body='''
+    ins_999(true);
+    ins_998(false, 3);
+    ins_999(5);
+''')
+
 # --- seeded generated programs (tools/gen_programs.py): ids gen/<profile>-<k>, tag 'gen'
 import gen_programs
 for g in gen_programs.generate():
